@@ -217,7 +217,8 @@ def run_date(ctx):
         method = rng.choice(["variational_gamma", "variational_gamma", "inside_outside", "maximization"])
         sm = rng.choice([None, True, False, None])
         kn, km = rng.choice(G.KINDS), rng.choice(G.KINDS)
-        ts = G.maybe_permuted(rng, G.pooled_ts(rng, size=ctx.n(8, 30), multi=False, min_muts=2), 0.3)
+        ts = G.maybe_permuted(rng, G.maybe_root_mutations(rng, G.pooled_ts(rng, size=ctx.n(8, 30), multi=False,
+                                                                          min_muts=2), 0.3), 0.3)
         if rng.random() < 0.25:
             # date -> annotate -> re-date: the first dating installs tsdate's default schemas on
             # schema-less tables, then every row gets further keys
